@@ -93,6 +93,34 @@ StateOK(o) ==
   \* lookup by rule: every surviving route is found under each spelling it was registered with, nothing else is
   /\ Set(o.st.byrule) = Dom(aabs) /\ o.st.byrule_miss = <<>>
 Outcomes == {"ok", "rejected:method", "rejected:name", "rejected:filter", "rejected:key"}
+\* ---- C11, equality with the freshly built router extends to what it would DO with the next registration: a rule or hook is
+\* refused for the type of one of its wildcards exactly when a SURVIVING rule or hook holds that wildcard position (same
+\* pattern text up to and including the wildcard) with another type.  Nothing that was removed may still have a say.
+\* k = number of operations applied so far (the reference state is the one after operation k).
+TokCount(pat, i) == Cardinality({j \in 1..i : pat[j] = TOKEN})
+Conflict(pat, fl, qpat, qfl) ==
+  \E i \in 1..(IF Len(pat) < Len(qpat) THEN Len(pat) ELSE Len(qpat)) :
+     /\ pat[i] = TOKEN /\ SubSeq(pat, 1, i) = SubSeq(qpat, 1, i)
+     /\ fl[TokCount(pat, i)] # qfl[TokCount(qpat, i)]
+\* the wildcard types a surviving hook rule holds are those of the installation that put it there: the first accepted
+\* add_hook of that rule since it was last removed (later ones join the list without being looked at, see HadHook)
+HookFiltersAt(k, hp) ==
+  LET rm == {i \in 1..k : T.ops[i].op = "remove_hook" /\ T.ops[i].r.pat = hp}
+      idx == {i \in 1..k : /\ T.ops[i].op = "add_hook" /\ T.ops[i].outcome = "ok" /\ T.ops[i].r.pat = hp
+                           /\ \A j \in rm : j < i} IN
+  T.ops[CHOOSE i \in idx : \A j \in idx : i <= j].r.filters
+RefRefuses(r, k) ==
+  \/ \E q \in Dom(aabs) : Conflict(r.pat, r.filters, q, aabs[q].filters)
+  \/ \E hp \in ahooks : Conflict(r.pat, r.filters, hp, HookFiltersAt(k, hp))
+\* a hook rule that already holds a hook takes the new one without looking at the wildcard types it is written with (the
+\* fresh router does the same: the hook list is per rule)
+HadHook(k, hp) == \E i \in 1..(k - 1) : /\ T.ops[i].op = "add_hook" /\ T.ops[i].outcome = "ok" /\ T.ops[i].r.pat = hp
+                                        /\ \A j \in (i + 1)..(k - 1) : ~(T.ops[j].op = "remove_hook" /\ T.ops[j].r.pat = hp)
+VerdictFails(o, k) ==
+  IF o.op \in {"add", "add_hook"} /\ o.outcome \in Outcomes
+  THEN LET ref == IF o.op = "add_hook" /\ HadHook(k, o.r.pat) THEN FALSE ELSE RefRefuses(o.r, k) IN
+       (IF (o.outcome = "rejected:filter") # ref THEN {"Verdict"} ELSE {})
+  ELSE {}
 PropFailsAt(o) ==
   (IF o.outcome \notin Outcomes THEN {"Outcome"} ELSE {}) \cup
   UNION {AnswerFails(o.ans[i]) : i \in 1..Len(o.ans)}
@@ -111,7 +139,7 @@ TSpec == TInit /\ [][TStep]_tvars
 Bookkeeping ==
   /\ ((l = Len(T.ops) + 1 /\ mech) => TLCSet(1, TLCGet(1) \cup {tid}))
   /\ ((l > 1 /\ ~mech /\ ~(\E x \in TLCGet(3) : x[1] = tid)) => TLCSet(3, TLCGet(3) \cup {<<tid, l - 1>>}))
-  /\ (l > 1 => LET f == PropFailsAt(T.ops[l - 1]) IN (f # {} => TLCSet(2, TLCGet(2) \cup {<<tid, c, l - 1>> : c \in f})))
+  /\ (l > 1 => LET f == PropFailsAt(T.ops[l - 1]) \cup VerdictFails(T.ops[l - 1], l - 1) IN (f # {} => TLCSet(2, TLCGet(2) \cup {<<tid, c, l - 1>> : c \in f})))
 ASSUME TLCSet(1, {}) /\ TLCSet(2, {}) /\ TLCSet(3, {})
 Report == /\ PrintT(<<"MECH_MISSING", ToJson((1..Len(Traces)) \ TLCGet(1))>>)
           /\ PrintT(<<"PROP_FAILS", ToJson(TLCGet(2))>>)
